@@ -24,15 +24,36 @@ CHECKS = {
  "C07": dict(cat="exploration", tech="property-based testing with a wrap-reaching generator (identifier burn) + in-flight-set invariant",
    text="Cases fill the send window with long-lived QoS 1/2 publishes and SUBSCRIBE/UNSUBSCRIBE, burn 65535*w+offset identifier allocations through locally refused publishes so the 16-bit counter lands on/around identifiers still in use, then issue new operations; every identifier-bearing packet must carry a non-zero id outside the model's in-flight set.",
    note="The burn relies on refused requests consuming identifiers (stated in the property); if a refactor changes that the non-trivial count drops instead of an alarm being raised.", ref="4/C07"),
+ "C08": dict(cat="exploration", tech="exhaustive short-input enumeration + grammar-based generation with single-point mutations + coverage-guided fuzzing (libFuzzer, thorough tier), three-valued reference classifier as oracle",
+   text="Every byte string of length 1-2 (thorough: 3), 256 first bytes x 20 remaining-length forms x 8 bodies, every server packet type in every legal encoding plus one mutation, and saved fuzzer inputs are fed before and after CONNACK into a session with one in-flight operation of every kind under generated read chunking. VALID => exact API effect; MALFORMED => InvalidPacket, dead handle, nothing acted upon; any panic/overflow is a violation.",
+   note="Lazily decoded property contents outside CONNACK and broker protocol errors (ack of the wrong kind, CONNACK after handshake, AUTH) are UNSPECIFIED and not judged.", ref="4/C08"),
  "C09": dict(cat="exploration", tech="round-trip against an independent MQTT 5 decoder over generated configurations and requests (property-based)",
    text="Generated configurations and requests (all property kinds/combinations, subscription options, remaining lengths on the 128/16384/2097152 boundaries, fields > 65535 bytes, too-small arenas); the strict reference decode of the captured bytes must equal the request field by field; unencodable requests fail with zero I/O; encodable ones with ample resources succeed.",
    note="Property lists are compared as multisets (the API does not fix the position of correlate()).", ref="4/C09"),
+ "C10": dict(cat="exploration", tech="property-based testing on a virtual clock owned by the harness (embassy-time driver) + timestamp oracle",
+   text="Keep-alive values incl. 0/1/2..65535 and Server Keep Alive overrides; the application sits in poll() while virtual time jumps to the client's own deadlines (plus generated executor latency) and to scheduled inbound arrivals; PINGRESP delays around the 5 s bound incl. never. Gaps between completed client packets <= effective keep-alive, no ping at keep-alive 0, dead peer detected at the bound (not earlier, not later than injected latency), timely PINGRESP never disconnects.",
+   note="Writes complete instantly; a PINGRESP readable exactly at the bound (or within injected latency after it) is unspecified. Known finding: keep-alive < 5 s with a PINGRESP later than the keep-alive.", ref="4/C10"),
  "C11": dict(cat="fault_enumeration", tech="fault injection at generated I/O-call indices + sticky-death invariant",
    text="Faults (read error, EOF, write error, flush error, broker DISCONNECT, local disconnect) at generated I/O calls followed by further API calls on the same handle; after death every op fails fast with Disconnected and the transport poll counter must not move.",
    note="Death triggers are the results listed in the property; NotReady/InvalidRequest/Rejected/resource errors are not triggers.", ref="4/C11"),
+ "C12": dict(cat="exploration", tech="stateful property-based testing of arbitrary failure prefixes + differential twin (brand-new session)",
+   text="Arbitrary generated history (faults, cancellations, 25% failed handshakes of all kinds, leaked handles, small buffers, arena-filling payloads) followed by connect() over a healthy transport to a conformant broker: must succeed whenever a brand-new session of the same configuration can, start with a complete CONNECT, parse cleanly, and pass a usability probe with results identical to the twin.",
+   note="Known finding: CONNECT does not fit behind retained packets in a nearly full arena (BufferTooSmall forever). Receive buffers below 12 bytes cannot complete a subscribe at all and are excluded.", ref="4/C12"),
+ "C13": dict(cat="exploration", tech="metamorphic / differential testing over every (operation, await point) pair (counted, then enumerated or sampled)",
+   text="Program with a reactive broker on a pend-first 1-byte-write transport; await points counted in an uncancelled run; each operation dropped at each await point (all when <= budget) and the connection driven to idle; request packets, PUBRELs, answers to broker publishes, delivered messages and final quiescence must equal the uncancelled twin, or the twin without the operation when it left no trace.",
+   note="QoS 0 publish is documented as not cancel-safe and never cancelled. Known finding: disconnect() dropped after some of its bytes were accepted.", ref="4/C13"),
  "C14": dict(cat="exploration", tech="boundary-swept property-based testing with a reference length oracle (both directions)",
    text="Broker maxima 2..299 (and absent) with request lengths limit-3..limit+3 for every request kind, mandatory acks that may not fit, replay under a smaller later maximum, inbound packets of rx-1/rx/rx+1/huge declared bytes; refused iff the reference-encoded length exceeds the maximum, refusals leave no trace, nothing oversize is ever transmitted, oversize inbound ends the connection cleanly.",
    note="Maximum of exactly 4 leaves the ack outcome unspecified; behaviour of requests while a retained packet exceeds a later smaller maximum is unspecified beyond 'not transmitted'.", ref="4/C14"),
+ "C15": dict(cat="exploration", tech="differential testing across fragmentations (exhaustive for a 13-byte stream, generated otherwise)",
+   text="Same program and inbound stream run with whole I/O and with generated read chunkings / partial-write patterns / pend-first scheduling; all 4096 segmentations of CONNACK + QoS 2 PUBLISH incl. every split inside the fixed headers. Deliveries, operation results, sampled predicates, connect results and outbound bytes must be identical.",
+   note="Virtual time frozen; no cancellations or faults (C13 / C11 cover those).", ref="4/C15"),
+ "C16": dict(cat="exploration", tech="stateful property-based testing + bounded-progress oracle with count-based watchdogs",
+   text="Arbitrary generated prefix, then the benign continuation (resume, broker acknowledges everything, application polls until idle): idle within 4*(pending+8)+10 polls and arena+const bytes, quiescent, no pending handle, nothing owed, poll() never returns Ok(None) without a completed I/O call, no packet sent twice on one connection, watchdogs (transport polls, clock reads) never fire.",
+   note="Unbounded liveness cannot be decided by testing; the bounded form is what is claimed. Same known finding as C12.", ref="4/C16"),
+ "C17": dict(cat="exploration", tech="long-history property-based testing + byte-identity invariant + differential capacity probe against a fresh twin",
+   text="Long histories on arenas of 36..4095 bytes with all ack orders, arena-filling payloads, QoS 0 and CONNECT traffic, reconnects; every retransmission must equal the first transmission except the DUP bit, and after draining a probe sweep (size ladder for QoS 0/1/2, slot counts) must give exactly the results of a brand-new session of the same build.",
+   note="The twin is the same build, so local constants are never baked into the oracle.", ref="4/C17"),
  "C18": dict(cat="exploration", tech="model-based property testing of handle predicates sampled after every step",
    text="All op kinds, ack orders, reason codes and reconnect patterns; is_pending/is_complete/is_invalidated sampled after every step and compared with the model; failing acks must surface as Rejected(code) from the consuming op.",
    note="Handle-to-packet association is derived from the wire (last matching packet first transmitted during the op that returned the handle).", ref="4/C18"),
